@@ -1333,6 +1333,17 @@ def transform(fn, proceed, to_instrument=True, set_conformer=True):
             f"transform() only works on functions defined with def (got {fn})"
         )
     tree.decorator_list = []
+    # The default values are those the function already has: evaluating the
+    # expressions again would repeat their side effects, yield other objects,
+    # or fail when they refer to names of the scope the def was executed in
+    tree.args.defaults = [
+        ast.copy_location(ast.Constant(value=None), d)
+        for d in tree.args.defaults
+    ]
+    tree.args.kw_defaults = [
+        d and ast.copy_location(ast.Constant(value=None), d)
+        for d in tree.args.kw_defaults
+    ]
     classname = _defining_class(fn)
     if classname is not None and classname.strip("_"):
         body_name = tree.name
@@ -1399,6 +1410,9 @@ def transform(fn, proceed, to_instrument=True, set_conformer=True):
         )
     else:
         actual_fn = namespace[fname]
+
+    actual_fn.__defaults__ = fn.__defaults__
+    actual_fn.__kwdefaults__ = fn.__kwdefaults__ and dict(fn.__kwdefaults__)
 
     glb[fnsym] = actual_fn
 
